@@ -26,6 +26,7 @@
 
 #include <stdlib.h>
 #include <stdint.h>
+#include <limits.h>
 #include <stdbool.h>
 #include <zck.h>
 #include "zck_private.h"
@@ -117,6 +118,10 @@ int compint_to_int(zckCtx *zck, int *val, const char *compint, size_t *length,
     size_t new = (size_t)*val;
     if(!compint_to_size(zck, &new, compint, length, max_length))
         return false;
+    if(new > INT_MAX) {
+        set_fatal_error(zck, "Overflow error: compressed int is too large");
+        return false;
+    }
     *val = (int)new;
     if(*val < 0) {
         set_fatal_error(zck, "Overflow error: compressed int is negative");
